@@ -1,6 +1,7 @@
 import Grass.Extend
 import GrassProofs.Lemmas.SelSem
 import GrassProofs.Lemmas.SelWalk
+import GrassProofs.Lemmas.ExtSem
 import GrassProofs.C11
 /-
   C10 — @extend makes extenders match wherever the target matched, nothing else.
@@ -117,6 +118,69 @@ theorem C10_trim_preserves_matches_spec (srcSpec : Simple → Nat) (sels : List 
   C10_trim_preserves_matches _ srcSpec sels p (fun a b h hb => isSuperComplex0_sound a b p h hb)
 
 
+/-! ### the extension of one compound by one extension `E → T` -/
+
+/-- **compound level**: the alternatives `extend_compound` (mod.rs:355) produces for a compound
+    match exactly the elements the compound matches once elements matched by `E` are credited
+    with `T` — this uses both directions of C11's `unifyCompound` theorems (`unify` is exact, and
+    `none` only for empty intersections) and the soundness of `trim`. -/
+theorem C10_extendCompound_iff (sw : Switches) (hsw : sw.supAsFound = false) (e : Ext) (hE : e.extender ≠ [])
+    (m : Option Nat) (inO : Bool) (c : Compound) (p : Ctx) :
+    match extendCompound sw [e] m inO c with
+    | .ok (some alts) => alts.any (matchesComplex · p) = credC e.extender e.target c p
+    | .ok none => credC e.extender e.target c p = mComp c p
+    | .error _ => True := by
+  generalize hr : extendCompound sw [e] m inO c = r
+  unfold extendCompound at hr
+  have hb := buildOptions_sem e p c [] none
+  have hne := buildOptions_ne e hE c [] none (by intro v hv; cases hv)
+  cases hbo : buildOptions [e] [] c none with
+  | none =>
+    rw [hbo] at hb hr
+    simp only at hr; subst hr
+    exact hb.2
+  | some options =>
+    rw [hbo] at hb hr
+    simp only [mComp, Bool.true_and] at hb
+    have hne := hne options hbo
+    simp only at hr
+    split at hr
+    · rename_i single
+      split at hr
+      · subst hr
+        simp only [List.any_map, Function.comp_def, matchesComplex_single]
+        rw [← hb]; simp [optSem]
+      · subst hr; trivial
+    · split at hr
+      · rename_i hp
+        exact absurd hp (paths_ne_nil options (fun ch hch => (hne ch hch).1))
+      · rename_i first others hp
+        split at hr
+        · subst hr
+          simp only
+          have htrim := C10_trim_preserves_matches (isSuperComplex0 sw.supAsFound) (srcSpecOf [e])
+            (([Component.compound (first.flatMap (·.comp))], inO) ::
+              (others.filterMap fun q => (unifyPath q).map fun u => (q, u)).map fun pu => ([Component.compound pu.2], false)) p
+            (by intro a b h hb'; rw [hsw] at h; exact isSuperComplex0_sound a b p h hb')
+          simp only [matchesList] at htrim
+          rw [htrim]
+          simp only [List.map_cons, List.any_cons, List.map_map, List.any_map, Function.comp_def, matchesComplex_single]
+          have hmem : ∀ path ∈ others, (∀ o ∈ path, o.comp ≠ []) ∧ path ≠ [] := by
+            intro path hpath
+            have hin : path ∈ paths options := by rw [hp]; simp [hpath]
+            refine ⟨paths_mem (fun o => o.comp ≠ []) options (fun ch hch => (hne ch hch).2) path hin, ?_⟩
+            have hl := paths_length options path hin
+            intro hnil; rw [hnil] at hl
+            cases options with
+            | nil => simp [paths] at hp; rw [hp.2] at hpath; simp at hpath
+            | cons _ _ => simp at hl
+          rw [filterMap_unify_any others p hmem, mComp_flatMap]
+          have := paths_any_all (fun (o : Opt) => mComp o.comp p) options
+          rw [hp] at this
+          simp only [List.any_cons] at this
+          rw [this, ← hb]; rfl
+        · subst hr; trivial
+
 /-! ### placeholders -/
 
 theorem invisC_eq_any (c : Compound) : invisC c = c.any invisS := by
@@ -212,6 +276,12 @@ theorem C10_media_confined :
 theorem C10_asFound_media_crossed :
     run Switches.asFound [ruleDotA, ruleDotB (some 1), extBA (some 1)]
       = .ok [[[.compound [.cls ['a']]], [.compound [.cls ['b']]]], [[.compound [.cls ['b']]]]] := by
+  decide +kernel
+
+
+private def extXB : Ext := ⟨[.cls ['b']], .cls ['a'], false, none⟩
+example : extendCompound Switches.spec [extXB] none true [.type ['t'], .cls ['a'], .cls ['x']]
+    = .ok (some [[.compound [.type ['t'], .cls ['a'], .cls ['x']]], [.compound [.type ['t'], .cls ['x'], .cls ['b']]]]) := by
   decide +kernel
 
 end Grass.Extend
